@@ -5,6 +5,7 @@ from . import corpus, tv
 from .sexp import parse, show, lst
 from .contracts import probe
 
+TINY_STATS = {'on': False}     # set by the C01 check ("under any table statistics")
 STATS = [None, {'big': 0}, {'big': 1}]   # which table (by position) gets a large mocked row count
 
 
@@ -14,7 +15,7 @@ def config_variants(table_names, thorough):
         out.append(dict(base))
         # tiny row estimates change which physical alternative is cheapest (e.g. hash vs sort aggregation): "under any
         # table statistics" -- every table estimated at 0 rows and at 2 rows (disk configuration; both in thorough)
-        if base['name'] == 'disk' or thorough:
+        if TINY_STATS['on'] and (base['name'] == 'disk' or thorough):
             for tiny in (0, 2):
                 c = dict(base)
                 c['name'] = '%s+rows%d' % (base['name'], tiny)
@@ -95,12 +96,22 @@ def attribute(task, res):
     try:
         cat, plans = get_plans(task['ddl'], [task['sql']], [cfg])
         o = plans[0]['opt'][cfg['name']]
+        note = None
+        if 'plan' not in o and cfg.get('stats'):
+            # the optimizer itself fails under these statistics once the rules are banned (egg's extractor panics on
+            # zero-row estimates): ask the same question under default statistics
+            cfg2 = {k_: v_ for k_, v_ in cfg.items() if k_ != 'stats'}
+            cat, plans = get_plans(task['ddl'], [task['sql']], [cfg2])
+            o = plans[0]['opt'][cfg2['name']]
+            note = 'with the listed rewrites banned the optimizer does not produce a plan under these statistics; attribution taken under default statistics'
         if 'plan' in o:
             t2 = dict(task)
             t2['opt'] = o['plan']
             t2['ranges'] = o.get('ranges', [])
             r2 = tv.solve_pair(t2)
             res['without_known_bad_rules'] = {'plan': o['plan'], 'verdict': r2['verdict']}
+            if note:
+                res['without_known_bad_rules']['note'] = note
     except Exception as ex:   # attribution is best-effort; failure means "not attributed"
         res['without_known_bad_rules'] = {'error': repr(ex)}
 
@@ -304,7 +315,15 @@ def absorb(report, prop, res):
             report.sample({'sql': res['sql'], 'config': res['cfg'], 'verdict': 'sat', 'db': res['db'], 'class': 'known (vanishes when the listed unsound rewrites are banned)',
                            'replayed': rep['reproduced']}, cap=14)
             return
-    key = 'query:%s|%s' % (res['cfg'].split('+')[0], res['sql'])
+    # the statistics variant is part of the key when it is one of the tiny-estimate configurations (a finding recorded for
+    # a zero-row estimate must not absorb a difference that shows under another estimate)
+    tiny = [p_ for p_ in res['cfg'].split('+')[1:] if p_.startswith('rows')]
+    key = 'query:%s|%s' % (res['cfg'].split('+')[0] + ''.join('+' + p_ for p_ in tiny), res['sql'])
+    same_rows = sorted(map(json.dumps, res.get('rows_bound') or [])) == sorted(map(json.dumps, res.get('rows_opt') or [0]))
+    if 'rows0' in tiny and str(res.get('mode', '')).startswith('ordered') and '(hashagg' in res['opt'] and '(order' not in res['opt'] and '(topn' not in res['opt'] and same_rows:
+        # one recorded defect, by role: with every table estimated at zero rows the extractor keeps a hash aggregation and
+        # the ORDER BY above it has been dropped -- the rows are right, their order is not
+        key = 'query:disk+rows0:order-dropped-above-hash-aggregation'
     out = report.counterexample(key, what[:500], res, rep['reproduced'])
     report.obligation(out == 'known')
     report.sample({'sql': res['sql'], 'config': res['cfg'], 'verdict': 'sat', 'db': res['db'], 'class': out, 'replayed': rep['reproduced']}, cap=14)
